@@ -235,8 +235,11 @@ func c07Work(c *mc.Ctx) {
 		c.MachineErr("the sync/atomic overlay is not active in this build: no scheduling points were hit")
 		return
 	}
+	if c.Owns(0) {
+		e3SelfTest(c)
+	}
 	for si, sc := range c07Scenarios(c.Tier) {
-		if !c.Owns(si) {
+		if !c.Owns(si + 1) {
 			continue
 		}
 		runScenario(c, "C07", sc)
